@@ -204,12 +204,22 @@ package interceptor
 //@ extern pure getParentFieldType
 //@ extern quiet visitDataBlobs
 //@ extern quiet visit.Assign
-//@ extern quiet reflect.ValueOf
+//@ extern pure reflect.ValueOf
 //@ extern visitNamespace@visitNamespace$1(logger, obj, match)
 //@   assigns *
 //@ contract visitNamespace$1
 //@   props C13 C16
 //@   pure match
+//@   counts Assign
+// what is written back is exactly what the matcher returned for the name that was read, and a matched, changed name
+// IS written back (a string field under a namespace field name; NamespaceInfo.Name likewise)
+//@   callpre Assign: @writes_mapped_name: $newValue == reflect.ValueOf(newName) && newName == call0(match, name) && call1(match, name)
+//@   writepre Name: @writes_mapped_name: $value == call0(match, info.Name) && call1(match, info.Name)
+//@   ensures @mapped_name_written: result1 == nil && result0 == visit.Continue && !(vwp.Value.Kind() == reflect.Ptr && vwp.Value.IsNil()) && res1(getParentFieldType(vwp)) == "" &&
+//@        !typeis(vwp.Value.Interface(), "*namespace.NamespaceInfo") && !typeis(vwp.Value.Interface(), "*history.History") &&
+//@        !dataBlobFieldNames[res0(getParentFieldType(vwp)).Name] && namespaceFieldNames[res0(getParentFieldType(vwp)).Name] &&
+//@        typeis(vwp.Value.Interface(), "string") && call1(match, cast(vwp.Value.Interface(), "string")) &&
+//@        call0(match, cast(vwp.Value.Interface(), "string")) != cast(vwp.Value.Interface(), "string") ==> calls(Assign) == 1
 //@   ensures @skip_only_where_handled: result0 == visit.Skip ==>
 //@        (vwp.Value.Kind() == reflect.Ptr && vwp.Value.IsNil()) || res1(getParentFieldType(vwp)) == visit.Skip || typeis(vwp.Value.Interface(), "*history.History")
 //@   ensures @history_not_walked_twice: result1 == nil && !(vwp.Value.Kind() == reflect.Ptr && vwp.Value.IsNil()) && res1(getParentFieldType(vwp)) == "" &&
